@@ -7,7 +7,7 @@ PROP = {'lean': 'MpsProps.C03',
               'Mps.C01alg.schnorr_z_unique',
               'Mps.C02alg.keygen_consistent',
               'Mps.C02alg.reconstruct_any_subset_public'],
- 'generated': ['Mps.AlgGen.gen_frostKeygenVss',
+ 'generated': ['Mps.Src.SrcCmpKeygen.gen_source', 'Mps.Src.SrcCmpSign.gen_source', 'Mps.Src.SrcCmpPresign.gen_source', 'Mps.Src.SrcFrostKeygen.gen_source', 'Mps.Src.SrcFrostSign.gen_source', 'Mps.Src.SrcDoernerKeygen.gen_source', 'Mps.Src.SrcDoernerSign.gen_source', 'Mps.AlgGen.gen_frostKeygenVss',
                'Mps.AlgGen.gen_cmpKeygenVss',
                'Mps.AlgGen.gen_frostSignRound3',
                'Mps.AlgGen.gen_cmpSignRound5',
